@@ -131,3 +131,47 @@ Definition rw_unix_milli (t : expr) := {| rw_name := "timeExprSimplify"; rw_lhs 
 Definition rw_unix_micro (t : expr) := {| rw_name := "timeExprSimplify"; rw_lhs := EBinary OMul (call1 PUnixNano t) lit1000; rw_rhs := call1 PUnixMicro t |}.
 (* offBy1's suggestion (not an equivalence claim: "maybe you wanted"): $x[len($x)] => $x[len($x)-1] *)
 Definition rw_off_by1 (x : expr) := {| rw_name := "offBy1"; rw_lhs := EIndex x (call1 PLen x); rw_rhs := EIndex x (EBinary OSub (call1 PLen x) lit1) |}.
+
+(* yodaStyleExpr: $constval op $x => $x op $constval   (op is == or !=; filter: $constval is a BasicLit) *)
+Definition rw_yoda (o : binop) (c x : expr) := {| rw_name := "yodaStyleExpr"; rw_lhs := EBinary o c x; rw_rhs := EBinary o x c |}.
+
+(* ---------- newDeref (newDeref_checker.go + lintutil.ZeroValueOf): `*new(T)` => the zero value of T ----------
+   The type enters as data: its source text, the arm of ZeroValueOf's type switch it falls into, and
+   isDefaultLiteralType (bool, int, float64, string: the bare literal already has type T). *)
+Inductive zclass := ZInt | ZFloat | ZString | ZBool | ZOtherBasic | ZNilable | ZComposite | ZOther.
+
+(* [star]: the type expression is a pointer type *T, which go/printer parenthesises in call position *)
+Definition zero_value_text_star (star : bool) (type_text : string) (c : zclass) (default_lit : bool) : option string :=
+  let ft := if star then "(" ++ type_text ++ ")" else type_text in
+  match c with
+  | ZNilable => Some (ft ++ "(nil)")
+  | _ => None
+  end.
+
+Definition zero_value_text (type_text : string) (c : zclass) (default_lit : bool) : option string :=
+  let wrap zv := if default_lit then zv else type_text ++ "(" ++ zv ++ ")" in
+  match c with
+  | ZInt => Some (wrap "0")
+  | ZFloat => Some (wrap "0.0")
+  | ZString => Some (wrap """""")
+  | ZBool => Some (wrap "false")
+  | ZOtherBasic => None                       (* complex, unsafe.Pointer: no suggestion *)
+  | ZNilable => Some (type_text ++ "(nil)")   (* slice, map, pointer, interface *)
+  | ZComposite => Some (type_text ++ "{}")    (* array, struct *)
+  | ZOther => None
+  end.
+
+Definition new_deref_msgs (cause_type_text type_text : string) (star : bool) (c : zclass) (default_lit : bool) : list string :=
+  match (match c with ZNilable => zero_value_text_star star type_text c default_lit | _ => zero_value_text type_text c default_lit end) with
+  | Some zv => ["replace `*new(" ++ cause_type_text ++ ")` with `" ++ zv ++ "`"]
+  | None => []
+  end.
+
+(* the suggested literal for the default literal types of the fragment *)
+Definition zero_lit (t : ty) : option expr :=
+  match t with
+  | TInt => Some (ELit LInt "0" TInt)
+  | TFloat => Some (ELit LFloat "0.0" TFloat)
+  | TString => Some (ELit LString """""" TString)
+  | _ => None
+  end.
